@@ -9,7 +9,7 @@ cd "$wt" || exit 2
 demo=$(python3 -c "import json;print(json.load(open('$out/meta.json'))['demo_cmd'])")
 log="$out/confirm.log"; : > "$log"
 echo "## suite with patch (+demo)" >> "$log"
-cargo test --workspace --no-fail-fast --offline 2>&1 | grep -E "^test result|^test .* FAILED" >> "$log"
+flock /tmp/suite.lock cargo test --workspace --no-fail-fast --offline 2>&1 | grep -E "^test result|^test .* FAILED" >> "$log"
 echo "## demo with patch: $demo" >> "$log"
 ( eval "$demo" 2>&1 | grep -E "^test result|^test .*(FAILED|ok)$" ) >> "$log"
 git apply -R "$out/patch.diff" || { echo "cannot unapply" >> "$log"; exit 2; }
